@@ -612,10 +612,7 @@ func (r *c02Rec) Header() http.Header { return r.hdr }
 func (r *c02Rec) Push(string, *http.PushOptions) error {
 	r.mu.Lock()
 	defer r.mu.Unlock()
-	if r.closed {
-		r.late = append(r.late, "Push()")
-	}
-	r.pushes++
+	r.pushes++ // (also after the response is complete: net/http's own timeout writer forwards a push at any time)
 	return nil
 }
 
